@@ -47,6 +47,14 @@ def main(tier, seed, replay=None):
         else:
             c = gen_problem(rng, ctor=ctor, quant=None, family=rng.choice(["exp3", "shared", "cosmix", "exp2c", "gaussc"]))
             c["ops"] = states.observe_at(rng, c, nsets=2) + [["into_seq"], ["observe"], ["jac_quiet"]]
+        if i % 5 == 1:
+            # a large absolute threshold on a scaled-up problem (singular values between eps and eps * sigma_max), and for every
+            # third of these an exactly rank-deficient basis: truncation decisions must be the same in both flavours
+            if i % 15 == 1:
+                c = gen_problem(rng, ctor=ctor, quant=8, family=rng.choice(list(RANKDEF)), eps=rng.choice([1e-6, 1e-3]))
+                c["ops"] = states.observe_at(rng, c, nsets=2) + [["into_seq"], ["observe"], ["jac_quiet"]]
+            else:
+                scale_up_for_eps(rng, c)
         if i % 5 == 2 and c["meta"]["family"] in ("exp3", "shared", "cosmix", "exp2c", "exp2", "exp1l"):
             # parameters at which the model evaluates to non-finite values (overflow), reached after good ones and followed by
             # good ones: the rejected state must look the same in both flavours
